@@ -9,11 +9,16 @@
                           that cannot arrive with p's wire type (this includes groups)
      unknown_raw / known_raw   concatenation of the raw bytes of the unknown / the other records, in order
      drop_fields masks sc the older schema: any subset of the fields of any class deleted
-   None of the statements below bounds the schema, the byte string or the subset of deleted fields. *)
+   Proofs/C08EvoDef.v: masks_ok (the decidable side condition of the headline: bundled and map-Entry classes keep their
+   fields); Model/C01Def.v: c01_schema_ok / c01_value_ok / norm_obj (the hypotheses and the decoded form of C01).
+   None of the statements below bounds the schema, the byte string, the message or the subset of deleted fields.
+   The headline is C08_evolution (unconditional: every premise of the older C08_evolution_partial is discharged). *)
 From BP Require Import Base.Prelude Model.Types Model.Varint Model.Object Model.Eq Model.Encode Model.Decode.
 From BP Require Import Model.WellFormed Model.C08Step.
 From BP Require Import Spec.Varint Spec.C08Wire.
 From BP Require Import Proofs.C08FrameP Proofs.C08StepP Proofs.C08UnknownP Proofs.C08CommuteP Proofs.C08EvolutionP Proofs.C08WireP.
+From BP Require Model.C01Def.
+From BP Require Import Proofs.C08EvoDef Proofs.C08EvoMain.
 
 (* Message.parse is a left-to-right fold of the loop body over the records of the input, and succeeds
    exactly when the input is a sequence of complete records each of which the loop body accepts *)
@@ -136,15 +141,9 @@ Theorem C08_evolution_bytes : forall sn masks c,
 Proof. exact evolution_bytes. Qed.
 Print Assumptions C08_evolution_bytes.
 
-(* The headline, for a message m of the newer schema.  PARTIAL: the two facts that belong to the round-trip
-   property C01 are premises (marked C01), not conclusions:
-     C01-new  the newer schema round-trips m:            parse sn c (enc sn m) = Ok m1, m1 == m
-     C01-old  the older writer reproduces the bytes of the fields it knows (canonical re-encoding; holds when the
-              deleted fields are fields of class c itself — for deletions inside nested classes use
-              C08_evolution_bytes, whose premise is the weaker "the newer reader sees the same object")
-   and so are: that the older reader and writer do not raise on these bytes, and [split_free] (a canonical encoder
-   emits at most one member per oneof group; the encoder-legality lemma that would discharge it is not proved here).
-   All of them are evaluated by the check on every generated case (oracle + vm_compute). *)
+(* The conditional form of the headline (kept: it also covers byte strings that are not encodings of a message).
+   Its premises — C01-new, C01-old, no-raise of the older reader / writer, split_free — are all DISCHARGED for encodings of
+   messages by C08_evolution below (Proofs/C08Evo*.v); C08_split_free_canonical is the encoder-legality part on its own. *)
 Theorem C08_evolution_partial : forall sn masks c m b1 m1 ps mo b2,
   nodup_z (map fnum (cfields (get_class sn c))) = true ->
   enc_obj sn m = Ok b1 ->
@@ -161,6 +160,49 @@ Proof.
   exists m1. repeat split; assumption.
 Qed.
 Print Assumptions C08_evolution_partial.
+
+(* Encoder legality as far as evolution needs it: in bytes(m) no oneof group has a deleted and a kept member present,
+   for EVERY set of deleted fields (a canonical encoder emits only the selected member of a group). *)
+Theorem C08_split_free_canonical : forall sn masks m b1 ps,
+  C01Def.c01_schema_ok sn = true -> C01Def.c01_value_ok sn m = true ->
+  enc_obj sn m = Ok b1 -> records b1 ps ->
+  split_free (get_class sn (ocls m)) (get_class (drop_fields masks sn) (ocls m)) ps = true.
+Proof. exact c08_split_free. Qed.
+Print Assumptions C08_split_free_canonical.
+
+(* THE HEADLINE, unconditional.  sn: any newer schema meeting C01's decidable well-formedness; masks: ANY set of deleted
+   fields of ANY user class — the class of m and every class nested at any depth, also recursively — subject only to
+   [masks_ok]: the bundled classes (Timestamp, Duration, wrappers) and the synthetic map-Entry classes are left alone (they are
+   not schema-evolvable: the decoder reads their attributes by position; the two _refuted theorems below show what happens
+   otherwise); m: any value meeting C01's decidable side conditions.  Then
+     bytes(m) exists; the OLDER reader parses it without raising (deleted fields end up, verbatim and in order, in
+     _unknown_fields at every nesting level); the OLDER writer re-encodes what it read (same length: a permutation of the
+     records at every level); the NEWER reader parses the result to EXACTLY the object it decodes from bytes(m) itself
+     (norm_obj sn m: raw attributes, oneof selection, presence flags, nested messages), which is == m with either operand
+     on the left (NaN inside containers aside: K7 of C01), agrees on which_one_of, and re-encodes to bytes(m).
+   Nothing is lost by passing through any older schema. *)
+Theorem C08_evolution : forall sn masks m,
+  C01Def.c01_schema_ok sn = true -> masks_ok sn masks = true -> C01Def.c01_value_ok sn m = true ->
+  exists b1, enc_obj sn m = Ok b1 /\
+    (Zlength b1 < 2 ^ 64 ->
+     exists mo b2 m2,
+       parse (drop_fields masks sn) (ocls m) b1 = Ok mo /\
+       enc_obj (drop_fields masks sn) mo = Ok b2 /\ length b2 = length b1 /\
+       parse sn (ocls m) b2 = Ok m2 /\ m2 = C01Def.norm_obj sn m /\
+       (C01Def.deep C01Def.nan_free (PMsg m) = true -> obj_eq sn m2 m = true /\ obj_eq sn m m2 = true) /\
+       (forall g, which_one_of m2 g = which_one_of m g) /\
+       enc_obj sn m2 = Ok b1).
+Proof. exact c08_evolution. Qed.
+Print Assumptions C08_evolution.
+
+(* the first half on its own: the older reader / writer never raise on what a newer writer produced *)
+Theorem C08_older_reader_total : forall sn masks m,
+  C01Def.c01_schema_ok sn = true -> masks_ok sn masks = true -> C01Def.c01_value_ok sn m = true ->
+  forall b1, enc_obj sn m = Ok b1 -> Zlength b1 < 2 ^ 64 ->
+  exists mo b2, parse (drop_fields masks sn) (ocls m) b1 = Ok mo /\
+                enc_obj (drop_fields masks sn) mo = Ok b2 /\ length b2 = length b1.
+Proof. exact c08_older_reader_total. Qed.
+Print Assumptions C08_older_reader_total.
 
 (* ---- non-vacuity ----
    newer class 11: a=1 int32, s=2 string, d=3 double, r=4 repeated sint64, u1=5 string (oneof 0), u2=6 int64 (oneof 0),
@@ -251,3 +293,70 @@ Proof.
   rewrite <- (app_nil_r ([x0d] ++ [x01; x02; x03; x04])).
   apply (WS_cons _ 1 5); [|constructor]. apply (WR_fixed32 [x0d] _ 1); [lia | repeat split; cbn; lia | reflexivity].
 Qed.
+
+(* ---- non-vacuity of C08_evolution, and necessity of masks_ok ----
+   newer class 11 (recursive): a=1 int32, s=2 string (oneof 0), n=3 message(11) (oneof 0), r=4 repeated message(11),
+   m=5 map<string, message(11)> (Entry class 12), t=6 Timestamp as datetime, d=7 double;  older: a, s, t deleted — in the
+   top-level message AND in every nested one (oneof member s deleted while member n is kept). *)
+Definition ex2_new : schema :=
+  mkS (builtin_classes ++
+       [mkC [mkF [x61] 1 TInt32 None None None false (HPlain PyInt) 0;
+             mkF [x73] 2 TString None (Some 0%nat) None false (HPlain PyStr) 0;
+             mkF [x6e] 3 TMessage None (Some 0%nat) None false (HPlain (PyMsg 11)) 0;
+             mkF [x72] 4 TMessage None None None false (HList (PyMsg 11)) 0;
+             mkF [x6d] 5 TMap (Some (TString, TMessage)) None None false (HDict PyStr (PyMsg 11)) 12;
+             mkF [x74] 6 TMessage None None None false (HPlain PyDatetime) 0;
+             mkF [x64] 7 TDouble None None None false (HPlain PyFloat) 0] 1;
+        mkC [mkF [x6b] 1 TString None None None false (HPlain PyStr) 0;
+             mkF [x76] 2 TMessage None None None false (HPlain (PyMsg 11)) 0] 0]) [].
+Definition ex2_masks : list (list bool) :=
+  [[]; []; []; []; []; []; []; []; []; []; []; [false; false; true; true; true; false; true]].
+Definition ex2_leaf1 : obj :=
+  Obj 11 [PInt 7; PStr [x78]; PPlaceholder; PPlaceholder; PPlaceholder; PPlaceholder; PFloat 4609434218613702656] true [] [Some 1%nat].
+Definition ex2_leaf2 : obj :=
+  Obj 11 [PInt (-1); PPlaceholder; PPlaceholder; PPlaceholder; PPlaceholder; PDatetime 1500000; PPlaceholder] true [] [None].
+Definition ex2_m : obj :=
+  Obj 11 [PInt 150; PPlaceholder; PMsg ex2_leaf1; PList [PMsg ex2_leaf2; PMsg ex2_leaf1];
+          PDict [(PStr [x6b], PMsg ex2_leaf2); (PStr [], PMsg ex2_leaf1)]; PDatetime (-1500000); PFloat 9223372036854775808]
+      true [] [Some 2%nat].
+Definition ex2_old : schema := Eval vm_compute in drop_fields ex2_masks ex2_new.
+Definition ex2_b1 : list byte := Eval vm_compute in ex_get [] (enc_obj ex2_new ex2_m).
+Definition ex2_mo : obj := Eval vm_compute in ex_get ex_dummy (parse ex2_old 11 ex2_b1).
+Definition ex2_b2 : list byte := Eval vm_compute in ex_get [] (enc_obj ex2_old ex2_mo).
+
+Example C08_evolution_hypotheses_nonvacuous :
+  C01Def.c01_schema_ok ex2_new = true /\ masks_ok ex2_new ex2_masks = true /\ C01Def.c01_value_ok ex2_new ex2_m = true /\
+  C01Def.deep C01Def.nan_free (PMsg ex2_m) = true /\
+  enc_obj ex2_new ex2_m = Ok ex2_b1 /\ parse (drop_fields ex2_masks ex2_new) 11 ex2_b1 = Ok ex2_mo /\
+  length (ounk ex2_mo) = 22%nat /\ enc_obj (drop_fields ex2_masks ex2_new) ex2_mo = Ok ex2_b2 /\
+  ex2_b2 <> ex2_b1 /\ length ex2_b2 = 123%nat /\ length ex2_b1 = 123%nat /\
+  parse ex2_new 11 ex2_b2 = Ok (C01Def.norm_obj ex2_new ex2_m).
+Proof.
+  split; [vm_compute; reflexivity|]. split; [vm_compute; reflexivity|]. split; [vm_compute; reflexivity|].
+  split; [vm_compute; reflexivity|]. split; [vm_compute; reflexivity|]. split; [vm_compute; reflexivity|].
+  split; [vm_compute; reflexivity|]. split; [vm_compute; reflexivity|]. split; [vm_compute; discriminate|].
+  split; [vm_compute; reflexivity|]. split; vm_compute; reflexivity.
+Qed.
+
+(* masks_ok is needed: deleting `value` from a synthetic map-Entry class, or `seconds` from the bundled Timestamp, makes the
+   older reader raise on bytes(m) (it reads these attributes by position); such "older schemas" do not arise from evolving a
+   .proto file *)
+Theorem C08_evolution_entry_mask_refuted :
+  exists sn masks m b1,
+    C01Def.c01_schema_ok sn = true /\ C01Def.c01_value_ok sn m = true /\ masks_ok sn masks = false /\
+    enc_obj sn m = Ok b1 /\ parse (drop_fields masks sn) (ocls m) b1 = Err EAttribute.
+Proof.
+  exists ex2_new, [[]; []; []; []; []; []; []; []; []; []; []; []; [true; false]], ex2_m, ex2_b1.
+  repeat split; vm_compute; reflexivity.
+Qed.
+Print Assumptions C08_evolution_entry_mask_refuted.
+
+Theorem C08_evolution_builtin_mask_refuted :
+  exists sn masks m b1,
+    C01Def.c01_schema_ok sn = true /\ C01Def.c01_value_ok sn m = true /\ masks_ok sn masks = false /\
+    enc_obj sn m = Ok b1 /\ parse (drop_fields masks sn) (ocls m) b1 = Err EType.
+Proof.
+  exists ex2_new, [[false; true]], ex2_m, ex2_b1.
+  repeat split; vm_compute; reflexivity.
+Qed.
+Print Assumptions C08_evolution_builtin_mask_refuted.
